@@ -23,7 +23,7 @@ CONSTANTS
  NodeWatch = TRUE
  MaxNode = 0
  Policy = "free"
-INVARIANTS Safety ViewNewest TimerSane
-PROPERTIES MCFetchWritesGood MCFileStable MCNodeKeeps MCSignJoins
+INVARIANTS Safety ViewNewestButD1 TimerSane
+PROPERTIES MCFetchWritesGoodButD1 MCFileStable MCNodeKeeps MCSignJoins
 VIEW View
 CHECK_DEADLOCK FALSE
